@@ -85,8 +85,6 @@ def check(ctx):
                     "relative targets are rejected with ExpectedAbsolutePath; the path is wrapped unchanged otherwise")
     else:
         ctx.bad("C16.4", "missing-anchor/TryFrom<syn::Path> for AbsolutePath", "", "checked conversion not found")
-    with ctx.only(lambda k: k.startswith("mapping/")):
-        c07.check(ctx)
     fn = q.fn1(P, "TypeSubstitutes::parse_path_param_mapping", S)
     if fn is not None:
         t = show(Norm(fn).term(fn["body"]), 10 ** 6)
